@@ -422,6 +422,7 @@ def run(rep):
     rng = random.Random(rep.seed * 6700417 % (2 ** 31) + rep.shard)
     n = 70 if rep.tier == 'quick' else 2500
     j = 0
+    rep.share(0.85)
     while j < n and not rep.out_of_time():
         if rep.only and rep.only != 'history':
             break
@@ -431,6 +432,7 @@ def run(rep):
     if j < n:
         rep.notes.append('truncated at %d of %d histories' % (j, n))
     rep.count('histories', j)
+    rep.share(1.0)
     if not rep.only or rep.only == 'shortcuts':
         shortcut_cases(rep, rng, 8 if rep.tier == 'quick' else 400)
 
